@@ -29,7 +29,7 @@ NULLABLE = {'Int64', 'UInt8', 'float64', 'float32', 'Float64', 'boolean', 'objec
 STR_POOL = ['a', 'b', 'abc', 'ab', 'AB', '', ' ', 'x y', 'été', '日本', 'a1', '12', 'id-7', 'id-12', 'Zed', 'zed',
             "it's", 'q"t', 'back\\slash', 'line\nbreak', 'tab\t', 'é', 'ß', '٣', '²', 'a.b', '^-', 'foo', 'bar']
 FLOAT_POOL = [0.0, 1.0, -1.0, 0.5, -0.5, 2.25, 100.0, -100.0, 1e10, -1e10, 0.125, 3.0, 7.0, -7.0, 1e-3 * 1024,
-              123456.75, -0.0]
+              123456.75, -0.0, 100000.375, 2.0000019073486328, 10000000000.5, 4.0, 12.0]
 DATE_POOL = [dt.datetime(2020, 1, 2), dt.datetime(1999, 12, 31, 23, 59, 59), dt.datetime(2000, 2, 29, 12, 0, 0, 500000),
              dt.datetime(1970, 1, 1), dt.datetime(2038, 1, 19, 3, 14, 7), dt.datetime(1900, 1, 1),
              dt.datetime(2021, 6, 15, 8, 30), dt.datetime(2021, 6, 15, 8, 30, 0, 1)]
@@ -39,6 +39,12 @@ def gen_cells(rng, fam, n):
     nullp = rng.choice([0, 0, 0, 0.15, 0.4, 1.0]) if fam in NULLABLE else 0
     cells = []
     small = rng.random() < 0.5   # few distinct values -> duplicates
+    if FAMILIES[fam] == 'real' and fam != 'float32' and rng.random() < 0.25 and n > 0:
+        # whole-number reals, with at most one value that is nearly (but not) whole: the sloppy int / bool rule
+        out = [None if rng.random() < nullp else float(rng.choice([0, 1, 2, 7, 100000, -3, 10 ** 10])) for _ in range(n)]
+        if rng.random() < 0.6:
+            out[rng.randrange(n)] = rng.choice([100000.375, 2.0000019073486328, 10000000000.5, 1.5, 123456.75])
+        return out
     for _ in range(n):
         if rng.random() < nullp:
             cells.append(None)
